@@ -136,6 +136,35 @@ ENUM_VIOLATIONS = [
 ]
 
 
+def _enum_duplicates():
+    """a redefined value name / ordinal at every pair of positions of a two- or three-value enum, the first
+    definition carrying ordinal 0 or not (0 is the one falsy ordinal), plus names that collide only after the
+    None -> None_ renaming"""
+    out = []
+    for n in (2, 3):
+        for i in range(n):
+            for j in range(i + 1, n):
+                for first in (0, 1):
+                    for kind in ("name", "ordinal"):
+                        names = ["A", "B", "C"][:n]
+                        ords = [first + 5 * k for k in range(n)]
+                        ords[i] = first
+                        if kind == "name":
+                            names[j] = names[i]
+                        else:
+                            ords[j] = ords[i]
+                        body = "".join(f'<value name="{a}">{o}</value>' for a, o in zip(names, ords))
+                        out.append((f"enum-duplicate-{kind}[{n}:{i},{j},first={first}]", f'<enum name="Bad" type="char">{body}</enum>'))
+    for a, b in (("None", "None_"), ("None_", "None")):
+        for first in (0, 1):
+            out.append((f"enum-duplicate-python-name[{a},{b},first={first}]",
+                        f'<enum name="Bad" type="char"><value name="{a}">{first}</value><value name="{b}">7</value></enum>'))
+    return out
+
+
+ENUM_VIOLATIONS += _enum_duplicates()
+
+
 def body_cases():
     """yields (rule, position, struct body)"""
     for rule, frag in BODY:
